@@ -13,11 +13,15 @@ CLAIM_TEXT = ("Theorems (coq/Props/C08.v, no axioms) over the model of the endpo
               "yet (C08_exactly_one, C08_finals_count, C08_handled); ACKs are never answered (C08_ack_silent); unwanted requests get 481, "
               "in-dialog ones no usage wants 404, INVITE answers go through an INVITE server transaction (C08_default_481, "
               "C08_dialog_answers); a layer that inspects without taking passes the request on, a taker ends the loop, layers are consulted "
-              "in registration order (C08_inspect_passes_on, C08_taker_ends_loop, C08_registration_order). Correspondence: stacks of up to 3 "
+              "in registration order (C08_inspect_passes_on, C08_taker_ends_loop, C08_registration_order); and over WHOLE histories "
+              "(C08_history_exactly_once, C08_history_at_most_once): from dialogs with empty backlogs, any list of requests with distinct "
+              "identities and, per dialog, distinct CSeq numbers, in any order, leaves every non-ACK request with exactly one final response "
+              "or still parked with none, no ACK answered and no response for an identity never received. Correspondence: stacks of up to 3 "
               "recording layers (take/ignore per method) around the real DialogLayer, dialogs with 0..2 recording usages, all methods incl. "
               "an unknown one, in/out of dialog, CSeq permutations with gaps, stray responses, concurrent groups under seeded schedules: "
               "offers per layer/usage and the responses on the wire (branch, CSeq, code, retransmission of INVITE failures) against the "
-              "extracted model; an oracle written from the property text decides each history.")
+              "extracted model; whole user agents (dialog + invite layers, acceptor) under C12's timed scripts; an oracle written from the "
+              "property text decides each history.")
 CLAIM_NOTE = ("Trusted: Coq kernel; hand-written model Model/C08.v (+Model/C10.v) validated by differential runs; a taking layer/usage is assumed "
               "to answer once (true of the harness layers; the invite usage's own answers are decided by C12). Requests parked behind a CSeq "
               "gap that is never filled stay unanswered: known finding F16a.")
@@ -35,8 +39,8 @@ RULE = ("stack layouts (D at every position among 0..3 recording layers, masks f
         "(0..2 dialogs, usage masks incl. none) x request sequences (9 methods, in-dialog with consecutive CSeq numbers in permuted order, "
         "gaps, lower numbers, unknown dialog, out of dialog, stray responses) x concurrent groups; non-trivial = at least one request "
         "passes a layer that ignores it; distinct = distinct (stack, dialogs, events)")
-PARTIAL = ["history-level 'exactly once over the whole run' is proved per dispatch (C08_exactly_one + C08_handled); the lifting to whole "
-           "histories relies on C10's once-only release of parked requests (C10_in_order_once) and is exercised by the differential runs"]
+PARTIAL = ["two different requests of one dialog with the same CSeq number ahead of a gap overwrite each other in the backlog (the model shows it, "
+           "the history theorem excludes it by hypothesis); concurrency of dispatches is exercised by the seeded concurrent groups, not proved"]
 
 METHODS = "iabconumx"
 NAMES = {"i": "INVITE", "a": "ACK", "b": "BYE", "c": "CANCEL", "o": "OPTIONS", "n": "INFO", "u": "UPDATE", "m": "MESSAGE", "x": "FOO"}
@@ -83,6 +87,18 @@ def _events_for(rng, ndialogs, peers, long=False):
         else:
             groups.append(["Q:%s:-:%d:r%d" % (rng.choice(METHODS), rng.randrange(1, 99), next(rid))])
     return groups
+
+
+def _dup_cases():
+    """two different requests of one dialog carrying the same CSeq number ahead of a gap, then the gap is filled"""
+    out = []
+    k = 0
+    for stack in (["D"], ["R", "D", "Rbo"], ["D", "R" + METHODS]):
+        for us in ("~", "b", "n/b"):
+            for m1, m2 in (("b", "o"), ("o", "b"), ("i", "b"), ("b", "b"), ("n", "a")):
+                groups = [["Q:%s:0:103:r1" % m1], ["Q:%s:0:103:r2" % m2], ["Q:b:0:101:r3"], ["Q:o:0:102:r4"], ["Q:n:0:104:r5"]]
+                out.append(_case("dup%d" % k, stack, ["100:%s" % us], groups, 1)); k += 1
+    return out
 
 
 def _case(cid, stack, dialogs, groups, seed):
@@ -148,6 +164,7 @@ def gen_cases(rng, tier):
         src = [c for k, c in enumerate(src) if k % 3 == 0 or ":bye" in c[4]]
     for k, c in enumerate(src):
         cases.append(["ua%d" % k, "c08", "ua", c[2], c[3], c[4], c[5]])
+    cases += _dup_cases()
     return cases
 
 
@@ -307,9 +324,10 @@ def _reference(case):
                                 exp[prid]["offers"] += o; exp[prid]["code"] = code; exp[prid]["parked"] = False
                             st["next"] = min(last + 1, 4294967295)
                         else:
-                            old = st["parked"].get(c)
-                            if old:
-                                exp[old[0]]["replaced"] = True
+                            if c in st["parked"]:
+                                # another request already waits under this number: it must not be displaced (it would never be
+                                # answered); this one is not the dialog's to keep - the following layers / the endpoint answer it
+                                continue
                             st["parked"][c] = (rid, m)
                             e["parked"] = True
                         done = True
